@@ -103,6 +103,18 @@ Proof.
     end; cbn [fst snd] in *; rewrite <- Hr; apply size_rule.
 Qed.
 
+Theorem net_accept_rule : forall c o chunks f,
+  forallb (accept_ok c) (dialogue (snd (fst (run_net c o chunks f)))) = true.
+Proof.
+  intros c o chunks f. unfold run_net.
+  destruct chunks as [|w ws];
+    match goal with
+    | |- context [run_reader ?n c o init ?r] =>
+        pose proof (run_reader_run n c o init r) as Hr;
+        destruct (run_reader n c o init r) as [[its tr] sf]
+    end; cbn [fst snd] in *; rewrite <- Hr; apply accept_rule.
+Qed.
+
 (** ** Nothing wedges the session: it ends on every connection *)
 Definition weight (r : reader) : nat := (length (cur r) + total_len (later r) + length (later r))%nat.
 
